@@ -228,12 +228,24 @@ def _missing_then_supplied(ctx, program, full, full_out, k):
     first = observe(G.root.evaluate, copy.deepcopy(partial))
     second = observe(G.root.evaluate, copy.deepcopy(full))
     ctx.evaluations += 3
-    if first[0] == "err":
-        ctx.count("missing_then_supplied")
-        ctx.nontrivial(spec_hash([program, partial, full]))
+    if first[0] != "err":
+        # no failed evaluation in this history: a stale second outcome would be C01's business (stale-hit monitor), not C12's
+        ctx.count("missing_then_supplied_first_succeeded")
+        return
+    ctx.count("missing_then_supplied")
+    ctx.nontrivial(spec_hash([program, partial, full]))
     if second != full_out:
+        from ..findings import classify_fallback
+
+        def rerun():
+            G2 = build(program)
+            observe(G2.root.evaluate, copy.deepcopy(partial))
+            return int(observe(G2.root.evaluate, copy.deepcopy(full)) != observe(build(program).root.evaluate, copy.deepcopy(full)))
+
+        # (the recorded C01 defect - inner values stored under a key set that misses an unexplainable present key - can
+        #  surface here too: inner nodes stored by the failed evaluation are then served to the later one)
         ctx.violation("supplying-missing-option", f"after failing without {k} ({short(first)}) the full dictionary gives {short(second)}, a fresh instance gives {short(full_out)}",
-                      {"program": program, "history": [partial, full], "plan": {}})
+                      {"program": program, "history": [partial, full], "plan": {}, "mechanism": classify_fallback(rerun)})
 
 
 def plans_for(ctx, r, pids, exhaustive):
@@ -321,6 +333,8 @@ def run(ctx):
         for plan in plans:
             run_plan(ctx, p, dicts, plan, pids, f"directed:{name}")
         missing_then_supplied(ctx, p, rng)
+    if ctx.shard == 0:
+        known_finding_reproducer(ctx)
     n = ctx.n(400, 8000)
     for i in range(n):
         r = case_rng(ctx, i)
@@ -335,8 +349,28 @@ def run(ctx):
             run_plan(ctx, program, hist, plan, pids, "random")
 
 
+KF_PROGRAM = {"datasets": {"1": {"args": [["a", {"k": "opt", "key": "A", "dk": "const", "dv": 0}]], "cache": "nocache", "dispatch": "D",
+                                 "overloads": [["x", {"expr": {"k": "switch", "disp": {"k": "opt", "key": "E"}, "table": [["y", {"k": "const", "v": "e-y"}]]}}]]}},
+              "root": {"k": "tuple", "items": [{"k": "cached", "spec": {"k": "coalesce", "members": [{"k": "ds", "id": "1"}, {"k": "const", "v": "fell-back"}]}},
+                                               {"k": "opt", "key": "D"}]}}
+
+
+def known_finding_reproducer(ctx):
+    """Recorded finding fallback-unexplainable-present-key as it shows in a failing-then-succeeding history: the failed
+    evaluation (D absent) stores the inner cached coalesce under a key set that omits D; with D supplied the stale inner
+    value is served although the overload selected by D cannot be evaluated and the coalesce must fall back."""
+    full = {"D": "x", "B": 1}
+    _missing_then_supplied(ctx, KF_PROGRAM, full, observe(build(KF_PROGRAM).root.evaluate, copy.deepcopy(full)), "D")
+    ctx.count("known_finding_witnesses")
+
+
 def replay(ctx, rep):
     w = rep["witness"]
+    if rep.get("monitor") == "supplying-missing-option":
+        partial, full = w["history"]
+        k = next(k for k in U.leaf_paths(full) if U.lookup(k, partial) is U.ABSENT) if partial != full else None
+        _missing_then_supplied(ctx, w["program"], full, observe(build(w["program"]).root.evaluate, copy.deepcopy(full)), k)
+        return
     plan = {k: (v[0], v[1]) for k, v in w.get("plan", {}).items()}
     pids = fault_free_pass(w["program"], w["history"])
     run_plan(ctx, w["program"], w["history"], plan, pids, "replay")
